@@ -565,12 +565,19 @@ class JSONPathEnvironment:
         if operator == "<=":
             return self._lt(left, right) or self._eq(left, right)
         if operator == "in" and isinstance(right, (Mapping, Sequence)):
-            return left in right
+            return self._contains(right, left)
         if operator == "contains" and isinstance(left, (Mapping, Sequence)):
-            return right in left
+            return self._contains(left, right)
         if operator == "=~" and isinstance(right, re.Pattern) and isinstance(left, str):
             return bool(right.fullmatch(left))
         return False
+
+    def _contains(self, container: object, item: object) -> bool:
+        try:
+            return item in container  # type: ignore
+        except TypeError:
+            # A non-string in a string or an unhashable value in a mapping, for example.
+            return False
 
     def _eq(self, left: object, right: object) -> bool:  # noqa: PLR0911
         if isinstance(right, NodeList):
